@@ -7,7 +7,9 @@ bit for bit.  Bernoulli encoders: the model's probabilities are fed to torch.ber
 and call pattern and the outcome must equal the implementation's.
 Direct oracle (independent of the Coq model): shape / number of slices / dtype, silence at zero intensity,
 minimum gap and at-most-one-spike-per-refractory-window for the refractory Poisson encoder,
-reproducibility from the same generator state, constructor validation; every online encoder is consumed both
+reproducibility from the same generator state, constructor validation; configuration reached through property
+setters (random assignment sequences to dt, steps, frequency, refrac, compensated, generator of the three classes,
+every getter compared after every assignment with the configuration a user expects, then encode); every online encoder is consumed both
 slice by slice and gathered-then-stacked (same seed) and the gathered slices must not share storage.
 """
 from __future__ import annotations
@@ -34,6 +36,8 @@ LEVEL_NOTE = ("Trusted: Coq kernel; the hand-written model coq/C19/Encoders.v (v
               "[u < p]), cumsum/scatter_/masked assignment modelled by their meaning; replay of sampler calls on an "
               "identically seeded generator. Real-number theorems use the stdlib real axioms. NOT proved: floating-point "
               "rounding (refrac/dt just below an integer), statistical properties (rates), generator-state reproducibility "
+              "(oracle only), the tie of the setter state machine (Encoders.assign, theorems explicit_refrac_sticky, "
+              "assign_accepted_spec, assign_tracks_dt ...) to the property setters is correspondence + oracle "
               "(oracle only), that online slices are distinct tensors (oracle only: both consumption modes + alias probe).")
 EXPLANATION = ("Every encoder is modelled as a function of the sampled values (exponential / Poisson / uniform draws are inputs), so "
                "'for all generator seeds' becomes 'for all draw lists' and is proved by induction / order arguments in Coq: shape "
@@ -197,9 +201,159 @@ def gen_case(rng: random.Random, stream: str):
     raise RuntimeError("case generation failed")
 
 
+# ------------------------------------------------------------------ configuration through setters
+CFG_KEYS = ("steps", "dt", "freq", "refrac", "comp")
+KIND_COQ = {"hpe": "KHpe", "hpa": "KHpa", "pie": "KPie"}
+
+
+def expected_run(kind, ctor, assigns):
+    """The configuration a user expects after a sequence of property assignments (independent of the
+    implementation and of the Coq model): every attribute holds the value assigned last; refrac = None means
+    'follow dt' and an explicitly assigned refrac stays explicit; an assignment the documentation rejects
+    (non-positive dt / steps, negative frequency / refrac, frequency * refrac >= 1000 while compensating)
+    raises ValueError and changes nothing.  Returns (final configuration, [(rejected, getters)])."""
+    st = {k: ctor[k] for k in CFG_KEYS}
+
+    def refrac():
+        return st["dt"] if st["refrac"] is None else st["refrac"]
+
+    def getters():
+        h = kind == "hpe"
+        return [st["steps"], st["dt"], st["freq"], st["comp"] if h else None, refrac() if h else None,
+                st["steps"] * st["dt"]]
+
+    trace = []
+    for attr, v in assigns:
+        rej = False
+        if attr == "dt":
+            rej = not v > 0
+            key = "dt"
+        elif attr == "steps":
+            rej = not v > 0
+            key = "steps"
+        elif attr == "frequency":
+            rej = v < 0 or (kind == "hpe" and st["comp"] and not v * refrac() < 1000)
+            key = "freq"
+        elif attr == "refrac":
+            r = st["dt"] if v is None else v
+            rej = (v is not None and v < 0) or (st["comp"] and not r * st["freq"] < 1000)
+            key = "refrac"
+        elif attr == "compensated":
+            rej = bool(v) and not st["freq"] * refrac() < 1000
+            key = "comp"
+        else:
+            key = None
+        if not rej and key is not None:
+            st[key] = v
+        trace.append((rej, getters()))
+    return st, trace
+
+
+def finalize(case):
+    """top-level configuration fields of a setter case := the expected final configuration"""
+    st, _ = expected_run(case["kind"], case["ctor"], case["assign"])
+    case.update(st)
+    return case
+
+
+def eff_seed(c):
+    seed = c["seed"]
+    for attr, v in c.get("assign", []):
+        if attr == "generator":
+            seed = v
+    return seed
+
+
+def unambiguous(case):
+    if case["kind"] != "hpe":
+        return True
+    r = refrac_used(case) / case["dt"]
+    if math.floor(r) != exact_floor_ratio(refrac_used(case), case["dt"]):
+        return False
+    m = max(r, 1)
+    return math.floor(case["steps"] / m) == int(case["steps"] // m)
+
+
+def gen_setter_case(rng):
+    for _ in range(400):
+        base = gen_case(rng, "valid")
+        if base["kind"] not in ("hpe", "hpa", "pie"):
+            continue
+        kind = base["kind"]
+        ctor = {k: base[k] for k in CFG_KEYS}
+        if kind != "hpe":
+            ctor["refrac"], ctor["comp"] = None, False
+        elif rng.random() < 0.4:
+            # start from a derived refractory period (follows dt until one is assigned)
+            ctor["refrac"] = None
+            if ctor["comp"] and ctor["dt"] * ctor["freq"] > 990.0:
+                ctor["comp"] = False
+        st = dict(ctor)
+        assigns = []
+
+        def cur_refrac():
+            return st["dt"] if st["refrac"] is None else st["refrac"]
+
+        attrs = {"hpe": ["dt", "dt", "steps", "frequency", "refrac", "refrac", "refrac", "compensated", "generator"],
+                 "hpa": ["dt", "steps", "frequency", "generator"], "pie": ["dt", "steps", "frequency", "generator"]}[kind]
+        for _i in range(rng.randint(1, 6)):
+            a = rng.choice(attrs)
+            bad = rng.random() < 0.12
+            if a == "dt":
+                v = rng.choice([0.0, -1.0]) if bad else rng.choice(DTS)
+            elif a == "steps":
+                v = rng.choice([0, -2]) if bad else rng.choice([1, 2, 3, 5, 8, 12, 16, 20, 24])
+            elif a == "frequency":
+                if kind == "hpe" and st["comp"] and cur_refrac() > 0:
+                    fmax = 990.0 / cur_refrac()
+                    v = rng.choice([-5.0, 2000.0 / cur_refrac()]) if bad else round(rng.choice([fmax, 0.7 * fmax, 0.3 * fmax]), 2)
+                else:
+                    v = -5.0 if bad else rng.choice([1000.0, 800.0, 400.0, 250.0, 100.0]) / st["dt"]
+            elif a == "refrac":
+                if not bad and rng.random() < 0.3:
+                    v = None                 # back to 'follow dt'
+                elif bad and st["refrac"] is not None:
+                    v = -st["dt"]            # rejected (only tried while refrac is explicit, see report)
+                elif bad and st["comp"] and st["freq"] > 0:
+                    v = 3000.0 / st["freq"]  # rejected: frequency * refrac >= 1000 while compensating
+                else:
+                    v = rng.choice([1, 2, 3, 3, 4, 5]) * st["dt"]
+                    if st["comp"] and v * st["freq"] > 990.0:
+                        v = st["dt"] * 1.0 if st["dt"] * st["freq"] <= 990.0 else None
+                        if v is None:
+                            continue
+            elif a == "compensated":
+                v = rng.random() < 0.5
+            else:
+                v = rng.randrange(1 << 30)
+            # keep every accept / reject decision away from the 1000 boundary
+            probe = None
+            if a == "frequency" and kind == "hpe":
+                probe = v * cur_refrac()
+            elif a == "refrac":
+                probe = (st["dt"] if v is None else v) * st["freq"]
+            elif a == "compensated":
+                probe = st["freq"] * cur_refrac()
+            if probe is not None and abs(probe - 1000.0) < 2.0:
+                continue
+            assigns.append([a, v])
+            st, _ = expected_run(kind, ctor, assigns)
+        if not assigns:
+            continue
+        case = dict(base, ctor=ctor, assign=assigns, stream="setters")
+        finalize(case)
+        if not (config_valid(case) and in_domain(case) and unambiguous(case)):
+            continue
+        return case
+    raise RuntimeError("setter case generation failed")
+
+
 def gen_cases(rng, n):
     out = []
     for i in range(n):
+        if i % 5 == 2:
+            out.append(gen_setter_case(rng))
+            continue
         if i % 8 == 7:
             s = "malformed"
         elif INCLUDE_NEGZERO and i % 40 == 13:
@@ -259,20 +413,45 @@ def q_cfg(c):
     return f"(cfg {F.coq_Z(c['steps'])} {q_f(c['dt'])} {q_f(c['freq'])} {refrac} {F.coq_bool(c['comp'])})"
 
 
+def q_assign(a, v):
+    if a == "dt":
+        return f"ADt FN {q_f(v)}"
+    if a == "steps":
+        return f"ASteps FN {F.coq_Z(v)}"
+    if a == "frequency":
+        return f"AFreq FN {q_f(v)}"
+    if a == "refrac":
+        return "ARefrac FN None" if v is None else f"ARefrac FN (Some {q_f(v)})"
+    if a == "compensated":
+        return f"AComp FN {F.coq_bool(v)}"
+    raise AssertionError(a)
+
+
 def q_case(c, r):
     """Coq term for the model run of case c with the draws replayed by the implementation side (r)"""
+    if "assign" in c:
+        # the model constructs with the constructor's arguments, applies the assignments (as the setters are
+        # written) and runs forward on the state it reached
+        inner = q_case_plain(c, r, cfg="c")
+        prog = F.coq_list([q_assign(a, v) for a, v in c["assign"] if a != "generator"])
+        return f"run_seq {KIND_COQ[c['kind']]} {q_cfg(c['ctor'])} {prog} (fun c => {inner})"
+    return q_case_plain(c, r)
+
+
+def q_case_plain(c, r, cfg=None):
+    cfg = cfg or q_cfg(c)
     k = c["kind"]
     xs = q_fl(c["x"])
     if k == "hpe":
         if c["online"]:
-            return f"run_hpe_online {q_cfg(c)} {xs} {q_fl(r.get('draws0', []))} {q_fll(r.get('draws_steps', []))}"
-        return f"run_hpe_offline {q_cfg(c)} {xs} {q_fll(r.get('draws', []))}"
+            return f"run_hpe_online {cfg} {xs} {q_fl(r.get('draws0', []))} {q_fll(r.get('draws_steps', []))}"
+        return f"run_hpe_offline {cfg} {xs} {q_fll(r.get('draws', []))}"
     if k == "pie":
         if c["online"]:
-            return f"run_pie_online {q_cfg(c)} {xs} {q_zl(r.get('draws0', []))} {q_zll(r.get('draws_steps', []))}"
-        return f"run_pie_offline {q_cfg(c)} {xs} {q_zll(r.get('draws', []))}"
+            return f"run_pie_online {cfg} {xs} {q_zl(r.get('draws0', []))} {q_zll(r.get('draws_steps', []))}"
+        return f"run_pie_offline {cfg} {xs} {q_zll(r.get('draws', []))}"
     if k == "hpa":
-        return f"run_hpa {q_cfg(c)} {xs}"
+        return f"run_hpa {cfg} {xs}"
     refrac = "None" if c["refrac"] is None else f"(Some {q_f(c['refrac'])})"
     st = f"{int(c['steps'])}%nat"
     if k == "f_exp":
@@ -300,8 +479,39 @@ def is_bern(c):
     return c["kind"] in ("hpa", "f_bern", "f_inhomog")
 
 
+def dec_estate(t, kind):
+    steps, dt, freq, comp, refrac = t
+    h = kind == "hpe"
+    return [steps, F.dec_float(dt), F.dec_float(freq), bool(comp) if h else None, F.dec_float(refrac) if h else None]
+
+
+def fwd_tree(c, m):
+    """the forward part of a model result (setter cases wrap it)"""
+    if "assign" in c and not isinstance(m, Exception):
+        return m[3] if m[0] == 0 else m
+    return m
+
+
 def compare(c, r, m, bern_out):
     """returns None (agree) or a dict describing the disagreement"""
+    if "assign" in c:
+        if m[0] != 0:
+            return {"model": "constructor Err %d" % m[1], "impl": r["status"], "msg": r["msg"]}
+        if "setter_trace" not in r:
+            return {"model": "constructed", "impl": "raised before the assignments", "msg": r["msg"]}
+        kind = c["kind"]
+        if dec_estate(m[1], kind) != r["getters0"][:5]:
+            return {"what": "getters after construction differ", "model": dec_estate(m[1], kind), "impl": r["getters0"][:5]}
+        it = [(a, t) for (a, t) in zip(c["assign"], r["setter_trace"]) if a[0] != "generator"]
+        if len(it) != len(m[2]):
+            return {"what": "number of assignments applied differs", "model": len(m[2]), "impl": len(it)}
+        for i, ((a, t), ms) in enumerate(zip(it, m[2])):
+            merr = ms[0][0] if ms[0] else None
+            if merr != t[0] or dec_estate(ms[1], kind) != t[1][:5]:
+                return {"what": "setter behaves differently from the model", "assignment": a, "index": i,
+                        "model": {"raised": merr, "getters": dec_estate(ms[1], kind)},
+                        "impl": {"raised": t[0], "getters": t[1][:5], "info": t[2]}}
+        m = m[3]
     k = c["kind"]
     if is_bern(c):
         if k == "hpa":
@@ -352,6 +562,25 @@ def oracle(c, r):
             s["symptom"] = kind
         fails.append({"detail": detail, "signature": s})
 
+    if "assign" in c:
+        # every getter after every assignment against the configuration a user expects
+        _, exp = expected_run(k, c["ctor"], c["assign"])
+        tr = r.get("setter_trace")
+        if tr is None:
+            fail("raised", {"msg": r["msg"], "stage": r.get("stage")})
+            return fails
+        for i, ((attr, val), (rej, eg), t) in enumerate(zip(c["assign"], exp, tr)):
+            err, got, info = t
+            ok = (err == 2) if rej else (err is None)
+            if attr == "generator":
+                ok = ok and info is True
+            if not ok or got != eg:
+                fail("setter_config",
+                     {"what": "configuration after a property assignment is not the one assigned",
+                      "constructor": c["ctor"], "assignments": c["assign"][:i + 1], "assignment_index": i,
+                      "expected": {"raises_ValueError": rej, "getters [steps, dt, frequency, compensated, refrac, duration]": eg},
+                      "got": {"raised": err, "getters": got, "info": info}})
+                return fails
     if not config_valid(c):
         if not (r["status"] == "raised" and r["exc"] == 2):
             fail("invalid_config_accepted", {"expected": "ValueError", "got": r["status"], "msg": r["msg"]})
@@ -442,6 +671,7 @@ def evaluate(cases):
     for i, (c, m) in enumerate(zip(cases, model)):
         if not is_bern(c) or isinstance(m, Exception) or not config_valid(c):
             continue
+        m = fwd_tree(c, m)
         if c["kind"] == "hpa":
             if m[0] != 0:
                 continue
@@ -451,7 +681,7 @@ def evaluate(cases):
         else:
             probs = [F.dec_float(t) for row in m for t in row]
         bcases.append({"kind": c["kind"], "online": c["online"], "steps": c["steps"], "shape": c["shape"],
-                       "seed": c["seed"], "probs": probs})
+                       "seed": eff_seed(c), "probs": probs})
         bidx.append(i)
     bout = [None] * len(cases)
     if bcases:
@@ -514,7 +744,9 @@ def run(ctx):
         "rule": "seeded random encoder configurations (7 encoder entry points: 3 classes x online/offline + 4 functional; "
                 "steps 1..24, 7 step times, refrac None / 0 / k*dt (k<=7) / non-multiples, compensation on/off, 10 input "
                 "shapes, intensities with forced exact 0 and 1, frequencies up to the edge of the documented domain; every "
-                "8th case malformed (invalid constructor arguments, rate*refrac >= 1000), every 40th with a -0.0 intensity); "
+                "8th case malformed (invalid constructor arguments, rate*refrac >= 1000), every 40th with a -0.0 intensity; "
+                "every 5th case reaches its configuration through 1-6 random property assignments incl. rejected values, incl. "
+                "`refrac = None` and the approx encoder's frequency setter, all getters compared after each assignment); "
                 "online encoders consumed both slice-by-slice and gathered-then-stacked, gathered slices probed for shared "
                 "storage; non-trivial = at least two spikes or an exception; distinct by full case text"
                 + ("; plus a small-scope sweep of steps x refrac multiple x compensation x online" if ctx["tier"] == "thorough" else ""),
@@ -523,6 +755,9 @@ def run(ctx):
         "impl_status": dict(Counter(r["status"] if r["status"] == "ok" else "raised:%s" % r["exc"] for r in impl)),
         "spikes_observed": spikes_total, "refractory_gaps_checked": gaps_checked,
         "online_cases_consumed_both_ways_and_alias_probed": online_probed,
+        "setter_assignments_checked": sum(len(c.get("assign", [])) for c in cases),
+        "setter_assignment_kinds": dict(Counter(a[0] + ("=None" if a[1] is None else "") for c in cases
+                                                for a in c.get("assign", []))),
         "side_observations": {
             "poisson_interval_offline_active_elements": last_step[0],
             "poisson_interval_offline_active_elements_firing_at_last_step": last_step[1],
@@ -551,11 +786,16 @@ def minimise(case):
     for _ in range(12):
         n = nel(best["shape"])
         cands = []
+        if "assign" in best:
+            for j in range(len(best["assign"])):
+                cnd = dict(best, assign=best["assign"][:j] + best["assign"][j + 1:])
+                if cnd["assign"]:
+                    cands.append(finalize(cnd))
         if n > 1:
             for j in range(n):
                 cands.append(dict(best, shape=[n - 1], x=best["x"][:j] + best["x"][j + 1:]))
         for s in (1, 2, best["steps"] // 2, best["steps"] - 1):
-            if 1 <= s < best["steps"]:
+            if 1 <= s < best["steps"] and "assign" not in best:
                 cands.append(dict(best, steps=s))
         if not cands:
             break
